@@ -261,7 +261,11 @@ where
                         take!(DateToken::Colon);
                         let m = take!(DateToken::Number(s, None), s);
                         if let Some(m) = parse_range(&m, 2, 0..=59) {
-                            out.offset = Some(s * (h * 3600 + m * 60));
+                            let secs = h
+                                .checked_mul(3600)
+                                .and_then(|h| h.checked_add(m * 60))
+                                .ok_or_else(|| format!("Offset {}:{:02} is out of range", h, m))?;
+                            out.offset = Some(s * secs);
                             Ok(())
                         } else {
                             Err(format!("Expected 2 digits after : in offset, got {}", m))
